@@ -47,7 +47,8 @@ impl Ctx {
         let p = self
             .build
             .join("run")
-            .join(format!("{}-{}-{}", self.id, self.tag, name));
+            // the process id keeps concurrent runs of one check (quick and thorough, several seeds) out of each other's files
+            .join(format!("{}-{}-{}-{}", self.id, self.tag, std::process::id(), name));
         let _ = std::fs::remove_dir_all(&p);
         std::fs::create_dir_all(&p).expect("create scratch dir");
         p
